@@ -2,9 +2,12 @@ package props
 
 import (
 	"bytes"
+	"encoding/hex"
 	"fmt"
 	"github.com/libsv/go-bk/bec"
 	"math/big"
+	"os"
+	"strings"
 	"sync"
 	"verif/internal/ref/sighashref"
 
@@ -752,9 +755,71 @@ func c06ShapeAndPushCases(yield func(c06Case), thorough bool) {
 	}
 }
 
+// c06UnparsableSigCases: elements that pass every signature ENCODING rule (strict DER, low S, a
+// defined hash type) and still are no signatures - R = 0, S = 0, R = the group order - against keys
+// in every encoding. The node checks the signature encoding, then the key encoding, then verifies
+// (a failed verification is a false result, not an error): an ill-encoded key next to such an
+// element is an encoding error under STRICTENC exactly as next to any other signature.
+func c06UnparsableSigCases(yield func(c06Case), thorough bool) {
+	k0, k1 := keyOf(0), keyOf(2)
+	order, _ := hex.DecodeString("00fffffffffffffffffffffffffffffffebaaedce6af48a03bbfd25e8cd0364141")
+	der := func(r, sv []byte) []byte {
+		body := bytesJoin([]byte{0x02, byte(len(r))}, r, []byte{0x02, byte(len(sv))}, sv)
+		return bytesJoin([]byte{0x30, byte(len(body))}, body)
+	}
+	elems := []struct {
+		name string
+		sig  []byte
+	}{{"r=0", der([]byte{0}, []byte{1})}, {"s=0", der([]byte{1}, []byte{0})}, {"r=order", der(order, []byte{1})}, {"r=0,s=0", der([]byte{0}, []byte{0})}}
+	encs := append([]keyEnc(nil), keyEncs...)
+	encs = append(encs, keyEnc{"prefix-05", func(k keyPair) []byte { return append([]byte{0x05}, k.comp[1:]...) }})
+	for _, el := range elems {
+		for _, ht := range []uint8{0x41, 0x01} {
+			sig := append(append([]byte(nil), el.sig...), ht)
+			for _, ke := range encs {
+				key := ke.get(k0)
+				var locks [][]byte
+				var names []string
+				for _, tail := range [][]byte{{0xac}, {0xac, 0x91}} {
+					locks = append(locks, bytesJoin(minimalPush(key), tail))
+					names = append(names, map[int]string{1: "CHECKSIG", 2: "CHECKSIG NOT"}[len(tail)])
+				}
+				for _, tail := range [][]byte{{0xae}, {0xae, 0x91}} {
+					nm := map[int]string{1: "CHECKMULTISIG", 2: "CHECKMULTISIG NOT"}[len(tail)]
+					// 1-of-1 with the odd key; 1-of-2 with the odd key first / second
+					locks = append(locks, bytesJoin([]byte{0x51}, minimalPush(key), []byte{0x51}, tail),
+						bytesJoin([]byte{0x51}, minimalPush(key), minimalPush(k1.comp), []byte{0x52}, tail),
+						bytesJoin([]byte{0x51}, minimalPush(k1.comp), minimalPush(key), []byte{0x52}, tail))
+					names = append(names, nm+" 1of1", nm+" 1of2 odd-key-first", nm+" 1of2 odd-key-second")
+				}
+				for li, lock := range locks {
+					for era := 0; era < 2; era++ {
+						for mask := 0; mask < 64; mask++ {
+							var f uint32
+							for i, b := range sigFlagBits {
+								if mask&(1<<i) != 0 {
+									f |= b
+								}
+							}
+							if era == 1 {
+								f |= fGenesis
+							}
+							u := minimalPush(sig)
+							if strings.HasPrefix(names[li], "CHECKMULTISIG") {
+								u = append([]byte{0x00}, u...)
+							}
+							yield(c06Case{scriptCase: scriptCase{Unlock: u, Lock: lock, Flags: f}, Op: names[li], Sig: "well-encoded-non-signature:" + el.name, Key: ke.name, HT: ht})
+						}
+					}
+				}
+			}
+		}
+	}
+}
+
 func init() {
 	p := register(&Prop{ID: "C06", Level: "exploration",
-		Rule: "exhaustive product with real ECDSA signatures, every case executed in lockstep against the reference model (CHECKSIG/CHECKMULTISIG written after the node's interpreter, certified on the signature vectors of script_tests.json; digests certified on the sighash vectors): CHECKSIG family: 8 locking-script forms (CHECKSIG, NOT, CHECKSIGVERIFY, OP_CODESEPARATOR before the key / before the opcode / unexecuted / later in the script, P2PKH) x 5 key encodings (compressed, uncompressed, hybrid, truncated, empty) x 17 hash types (12 standard, 5 undefined) x 9 signature kinds (valid, over another tx, by another key, over the other digest algorithm, empty, hash-type byte only, high-S, DER-padded, wrong DER length) x ALL 64 subsets of {STRICTENC, DERSIG, LOW_S, NULLDUMMY, NULLFAIL, SIGHASH_FORKID} x both eras x tx shapes (1 in/1 out, no outputs; thorough: 2 inputs); signature-in-script (exact push and substring); valid signatures with a CHOSEN s (n/2-1, n/2, n/2+1, 2^255-1, 2^255; the public key is recovered from the signature) against the LOW_S rule; signature checks in scripts that continue after a top-level OP_RETURN with 0..4 raw bytes (script code with a data tail), and signature checks reached after an UNLOCKING script that ends through a top-level OP_RETURN; for CHECKSIG and P2PKH also with the transaction's checked input already recording ANOTHER spent output (other value and script, as left by FromUTXOs or an earlier Execute): a valid signature, and one made for the recorded value instead of the spent one. CHECKMULTISIG family: every m-of-n with 0<=m<=n<=3, every m-tuple over the slot alphabet {valid by key j for every j, empty, type-only, other tx, high-S, a single byte that occurs inside a public key} (hence every order), dummy {empty, 01}, key mutations, 3 opcode forms, uniform and mixed per-signature hash types, 2/5 hash types, 64 flag subsets x both eras; key and signature counts of every m-of-n with n<=2 in ten number forms (plus 2^31, 2^32, 2^63, 2^64, 2^128, minus 2^64, negative, padded) x 3 opcode forms x 4 flag sets x both eras; two-input transactions (checked input first / last) and locking scripts with non-minimal pushes in the script code (PUSHDATA1/2/4 of 3 and 80 bytes, before and after the check, the key itself through PUSHDATA1; CHECKSIG, P2PKH and 1-of-1 CHECKMULTISIG; OP_CODESEPARATOR before / inside / after a CHECKMULTISIG, in taken and untaken branches, and as push data) x all 17 hash types x 4 flag sets x both eras, with a valid signature (also on a transaction OBJECT that went through signature hashing before being edited in place into the transaction of the case) and signatures made for a transaction differing in the other input's / the checked input's sequence number. Oracle: verdict and every stack snapshot equal the reference. distinct_nontrivial = distinct (script pair, flags) executions",
+		Rule: "incl. elements that pass every signature-encoding rule and are no signatures (R=0, S=0, R=group order, both zero) x 6 key encodings x CHECKSIG / CHECKMULTISIG 1-of-1 / 1-of-2 (odd key first, second) x NOT x all 64 flag subsets x both eras; exhaustive product with real ECDSA signatures, every case executed in lockstep against the reference model (CHECKSIG/CHECKMULTISIG written after the node's interpreter, certified on the signature vectors of script_tests.json; digests certified on the sighash vectors): CHECKSIG family: 8 locking-script forms (CHECKSIG, NOT, CHECKSIGVERIFY, OP_CODESEPARATOR before the key / before the opcode / unexecuted / later in the script, P2PKH) x 5 key encodings (compressed, uncompressed, hybrid, truncated, empty) x 17 hash types (12 standard, 5 undefined) x 9 signature kinds (valid, over another tx, by another key, over the other digest algorithm, empty, hash-type byte only, high-S, DER-padded, wrong DER length) x ALL 64 subsets of {STRICTENC, DERSIG, LOW_S, NULLDUMMY, NULLFAIL, SIGHASH_FORKID} x both eras x tx shapes (1 in/1 out, no outputs; thorough: 2 inputs); signature-in-script (exact push and substring); valid signatures with a CHOSEN s (n/2-1, n/2, n/2+1, 2^255-1, 2^255; the public key is recovered from the signature) against the LOW_S rule; signature checks in scripts that continue after a top-level OP_RETURN with 0..4 raw bytes (script code with a data tail), and signature checks reached after an UNLOCKING script that ends through a top-level OP_RETURN; for CHECKSIG and P2PKH also with the transaction's checked input already recording ANOTHER spent output (other value and script, as left by FromUTXOs or an earlier Execute): a valid signature, and one made for the recorded value instead of the spent one. CHECKMULTISIG family: every m-of-n with 0<=m<=n<=3, every m-tuple over the slot alphabet {valid by key j for every j, empty, type-only, other tx, high-S, a single byte that occurs inside a public key} (hence every order), dummy {empty, 01}, key mutations, 3 opcode forms, uniform and mixed per-signature hash types, 2/5 hash types, 64 flag subsets x both eras; key and signature counts of every m-of-n with n<=2 in ten number forms (plus 2^31, 2^32, 2^63, 2^64, 2^128, minus 2^64, negative, padded) x 3 opcode forms x 4 flag sets x both eras; two-input transactions (checked input first / last) and locking scripts with non-minimal pushes in the script code (PUSHDATA1/2/4 of 3 and 80 bytes, before and after the check, the key itself through PUSHDATA1; CHECKSIG, P2PKH and 1-of-1 CHECKMULTISIG; OP_CODESEPARATOR before / inside / after a CHECKMULTISIG, in taken and untaken branches, and as push data) x all 17 hash types x 4 flag sets x both eras, with a valid signature (also on a transaction OBJECT that went through signature hashing before being edited in place into the transaction of the case) and signatures made for a transaction differing in the other input's / the checked input's sequence number. Oracle: verdict and every stack snapshot equal the reference. distinct_nontrivial = distinct (script pair, flags) executions",
 	})
 	sp := NewSpace(p, "sigops", c06Check)
 	p.Run = func(r *rep.Run, thorough bool) {
@@ -780,9 +845,14 @@ func init() {
 			return fs
 		}
 		s := &Space[c06Case]{P: p, Name: sp.Name, Check: chk}
+		if os.Getenv("VERIF_C06_ONLY") == "nonsig" { // development aid: one family alone (never set by check.sh)
+			s.Each(r, func(yield func(c06Case)) { c06UnparsableSigCases(yield, thorough) })
+			return
+		}
 		s.Each(r, func(yield func(c06Case)) { c06ChecksigCases(yield, thorough) })
 		s.Each(r, func(yield func(c06Case)) { c06ReturnTailCases(yield, thorough) })
 		s.Each(r, func(yield func(c06Case)) { c06ChosenSCases(yield, thorough) })
+		s.Each(r, func(yield func(c06Case)) { c06UnparsableSigCases(yield, thorough) })
 		n1 := r.Evals()
 		s.Each(r, func(yield func(c06Case)) { c06MultisigCases(yield, thorough) })
 		s.Each(r, func(yield func(c06Case)) { c06CountCases(yield, thorough) })
